@@ -44,6 +44,12 @@
 (*         also a launch variable (and a search path variable)             *)
 (*   EMQ   ''  a cleared own key that is not a launch variable             *)
 (*   LIBS  a:${LD_LIBRARY_PATH}:b:$EMQ:c  refers to the cleared keys       *)
+(*   ZERO  the unquoted YAML scalar 0 (default platform) / 0.0 (p1); also a *)
+(*         launch variable                                                 *)
+(*   FLAG  the unquoted YAML scalar true (default platform) / false (p1)   *)
+(*   USEZ  a:$ZERO:b:${FLAG}:c  refers to the two                          *)
+(*         A scalar that YAML reads as a number or a boolean is the text   *)
+(*         that prints it ('0', '0.0', 'False'): falsy is not empty.       *)
 (* The launch environment gives every referenced name a different value.   *)
 (* Empty values: a reference to an own key expands to the own value even   *)
 (* when that value is empty (own first, then launch).  What the code at    *)
@@ -90,7 +96,7 @@ VARIABLES nm,       \* the name of the named environment (chosen in Init)
 vars == <<nm, plat, sel, spell, interp, present, keys, sel2, hist, dl>>
 
 EnvIds == {"named@default", "named@p1", "pkg@default", "pkg@p1"}
-Keys   == {"BASE", "PATH", "CH", "LD_LIBRARY_PATH", "EMQ", "LIBS", "DEFAULTS"}
+Keys   == {"BASE", "PATH", "CH", "LD_LIBRARY_PATH", "EMQ", "LIBS", "ZERO", "FLAG", "USEZ", "DEFAULTS"}
 DefaultsNames == {"BASE", "PATH", "IMP", "NOPE", "LD_LIBRARY_PATH"}
 Allowed(e) == CASE e = "named@default" -> NamedD [] e = "named@p1" -> NamedP
                 [] e = "pkg@default" -> PkgD [] e = "pkg@p1" -> PkgP
@@ -104,6 +110,8 @@ AllSels     == NoneSels \cup DefaultSels \cup NamedSels \cup {"unknown"}
 L(k, e, i) == [t |-> "lit", k |-> k, e |-> e, i |-> i]
 R(to, br)  == [t |-> "ref", to |-> to, br |-> br]
 N(n)       == [t |-> "name", n |-> n]
+S(y, e)    == [t |-> "scalar", y |-> y, e |-> e]      \* an unquoted YAML scalar: "int0" 0, "float0" 0.0, "false", "true"
+OnP1(e)    == e \in {"named@p1", "pkg@p1"}
 
 (* the value environment e gives to key k *)
 ValueOf(k, e) == CASE k = "BASE" -> <<L(k, e, 1)>>                                                             \* literal
@@ -112,9 +120,12 @@ ValueOf(k, e) == CASE k = "BASE" -> <<L(k, e, 1)>>                              
                    [] k = "LD_LIBRARY_PATH" -> <<>>                                                            \* cleared; a launch variable
                    [] k = "EMQ"  -> <<>>                                                                       \* cleared; not at launch
                    [] k = "LIBS" -> <<L(k, e, 1), R("LD_LIBRARY_PATH", TRUE), L(k, e, 2), R("EMQ", FALSE), L(k, e, 3)>>
+                   [] k = "ZERO" -> <<S(IF OnP1(e) THEN "float0" ELSE "int0", e)>>                            \* 0 / 0.0: falsy, not empty
+                   [] k = "FLAG" -> <<S(IF OnP1(e) THEN "false" ELSE "true", e)>>                            \* a platform's false over the default's true
+                   [] k = "USEZ" -> <<L(k, e, 1), R("ZERO", FALSE), L(k, e, 2), R("FLAG", TRUE), L(k, e, 3)>>
                    [] k = "DEFAULTS" -> [i \in 1..Len(dl[e]) |-> N(dl[e][i])]                                  \* names imported from launch
 
-LaunchKeys == {"PATH", "BASE", "LK", "IMP", "DECOY", "HOME", "PYTHONPATH", "LD_LIBRARY_PATH"}     \* NOPE, UNK, UNK2, CH: not at launch
+LaunchKeys == {"PATH", "BASE", "LK", "IMP", "DECOY", "HOME", "PYTHONPATH", "LD_LIBRARY_PATH", "ZERO"}     \* NOPE, UNK, UNK2, CH: not at launch
 Launch == TLCEval([k \in LaunchKeys |-> <<L(k, "launch", 1)>>])
 Sys    == TLCEval([k \in {"SYS"} |-> <<L(k, "system", 1)>>])
 PathVars == {"PATH", "PYTHONPATH", "PYTHONHOME", "LD_LIBRARY_PATH"}      \* PYTHONHOME is not in the launch environment
@@ -222,7 +233,7 @@ Ask(c) == /\ HistLen > 0 /\ Len(hist) < HistLen
 Next == \/ \E c \in {"c", "c2"} : Ask(c)
         \/ \E e \in {"named@default", "named@p1", "pkg@default", "pkg@p1"} : Create(e)
         \/ \E e \in {"named@default", "named@p1", "pkg@default", "pkg@p1"},
-              k \in {"BASE", "PATH", "CH", "LD_LIBRARY_PATH", "EMQ", "LIBS"} : AddKey(e, k)
+              k \in {"BASE", "PATH", "CH", "LD_LIBRARY_PATH", "EMQ", "LIBS", "ZERO", "FLAG", "USEZ"} : AddKey(e, k)
         \/ \E e \in {"named@default", "named@p1", "pkg@default", "pkg@p1"}, d \in DLists : AddDefaults(e, d)
 
 Spec == Init /\ [][Next]_vars
@@ -276,6 +287,13 @@ ClearedStaysClearedP(E, B) == (E.ok /\ B.n # "-") =>
                                         \A i \in 1..Len(E.env["LIBS"]) : E.env["LIBS"][i].t = "lit" => E.env["LIBS"][i].e # "launch"
 ClearedStaysCleared == ClearedStaysClearedP(Expected, Base)
 
+(* falsy is not empty: a declared key whose value is the scalar 0 / 0.0 / false is part of the result, and a reference *)
+(* to it expands to its text, never to the launch value and never to nothing                                          *)
+FalsyIsAValueP(E, B) == (E.ok /\ B.n # "-") =>
+                           /\ \A k \in DeclaredP(B) \cap {"ZERO", "FLAG"} : k \in DOMAIN E.env /\ E.env[k][1].t = "scalar"
+                           /\ ("USEZ" \in DeclaredP(B) /\ "ZERO" \in DeclaredP(B)) => E.env["USEZ"][2].t = "scalar"
+FalsyIsAValue == FalsyIsAValueP(Expected, Base)
+
 (* environments that are not a source for this selection and platform (the other kind of environment, the other *)
 (* platform's environments) never matter: the result equals the one for the package without them                  *)
 RelevantIds == LET n == IF sel \in NamedSels THEN "named" ELSE IF sel \in DefaultSels THEN "pkg" ELSE "-"
@@ -290,7 +308,7 @@ AnswersArePure == \A n \in 1..Len(hist) : hist[n].exp = ExpectedOfW(Who(hist[n].
 
 AllPropsP(E, B) == /\ ErrorIffP(E, B) /\ NoLeakP(E, B) /\ NoneIsEmptyP(E, B) /\ SystemAlwaysP(E, B)
                    /\ NoForeignTextP(E, B) /\ PlatformOverDefaultP(E, B) /\ OwnBeforeLaunchP(E, B)
-                   /\ ForeignIrrelevantP(E, B) /\ ClearedStaysClearedP(E, B)
+                   /\ ForeignIrrelevantP(E, B) /\ ClearedStaysClearedP(E, B) /\ FalsyIsAValueP(E, B)
 
 ErrorIff            == ErrorIffP(Expected, Base)
 NoLeak              == NoLeakP(Expected, Base)
